@@ -40,7 +40,7 @@ fn main() {
     let code = match args[1].as_str() {
         "run" if args.len() >= 4 => parent::run(&args[2], &args[3]),
         "worker" if args.len() >= 3 => parent::worker(&args[2]),
-        "replay" if args.len() >= 3 => parent::replay(&args[2], true),
+        "replay" if args.len() >= 3 => parent::replay(&args[2], args.get(3).map(|a| a != "--quiet").unwrap_or(true)),
         "minimise" if args.len() >= 4 => parent::minimise(&args[2], &args[3]),
         "selfcheck" => {
             let n = args.get(2).and_then(|s| s.parse().ok()).unwrap_or(2000);
